@@ -384,6 +384,24 @@ pub fn call_args(file: &ast::ScriptFile, names: &BTreeMap<String, i32>) -> Resul
 pub struct Hist(pub BTreeMap<String, u64>);
 impl Hist { pub fn bump(&mut self, k: &str) { *self.0.entry(k.to_string()).or_insert(0) += 1; } }
 
+/// Accelerating xor masks in every shape: each of (mask, velocity, acceleration) zero / non-zero in all 8 combinations, the
+/// extreme byte 0xFF, velocities and accelerations that wrap around within a few bytes, and plain random triples.
+pub fn gen_mask(rng: &mut Rng, h: &mut Hist) -> [u8; 3] {
+    let comp = |rng: &mut Rng, nonzero: bool| -> u8 {
+        if !nonzero { return 0; }
+        match rng.below(6) { 0 => 0xFF, 1 => 1, 2 => 0x80, 3 => *rng.pick(&[0xFEu8, 0x7F, 0xF0, 0x81]), _ => 1 + rng.below(255) as u8 }
+    };
+    match rng.below(10) {
+        0..=1 => { h.bump("mask_shape_000"); [0, 0, 0] },
+        2..=7 => {
+            let shape = rng.below(8) as u8;     // bit 2: mask, bit 1: velocity, bit 0: acceleration non-zero
+            h.bump(&format!("mask_shape_{}{}{}", (shape >> 2) & 1, (shape >> 1) & 1, shape & 1));
+            [comp(rng, shape & 4 != 0), comp(rng, shape & 2 != 0), comp(rng, shape & 1 != 0)]
+        },
+        _ => { h.bump("mask_shape_random"); [rng.below(256) as u8, rng.below(256) as u8, rng.below(256) as u8] },
+    }
+}
+
 pub fn int_size(c: char) -> (u8, bool) { let (_, s, sg) = INT_CHARS.iter().find(|x| x.0 == c).copied().unwrap(); (s, sg) }
 
 pub fn script_body(calls: &[(usize, Vec<A>)]) -> String {
